@@ -3,7 +3,7 @@ import json
 import os
 import sys
 
-KEYS = ("foo", "bar", "name")
+KEYS = ("foo", "_bar", "name")
 BOOK = ("_NodeMixin__children", "_NodeMixin__parent", "target")
 
 
